@@ -509,6 +509,7 @@ func (e *Engine) verifyFunction(key string, ct *Contract) (res *FuncResult) {
 		}
 	}
 	vc.entry = st.clone()
+	vc.useAxioms()
 	// requires
 	sc := vc.newScope(st, vc.entry)
 	sc.vars = vc.topVars
@@ -682,7 +683,29 @@ func (o *Obligation) query() string { return o.queryWith("") }
 
 func (o *Obligation) queryWith(extra string) string {
 	var body strings.Builder
-	for _, l := range o.vc.lines[:o.Prefix] {
+	var nonAxiom strings.Builder
+	if len(o.vc.axiomLines) > 0 {
+		for i, l := range o.vc.lines[:o.Prefix] {
+			if _, isAx := o.vc.axiomLines[i]; !isAx {
+				nonAxiom.WriteString(l)
+				nonAxiom.WriteByte('\n')
+			}
+		}
+		nonAxiom.WriteString(o.Goal)
+	}
+	na := nonAxiom.String()
+	for i, l := range o.vc.lines[:o.Prefix] {
+		if syms, isAx := o.vc.axiomLines[i]; isAx {
+			keep := false
+			for _, sy := range syms {
+				if strings.Contains(na, sy) {
+					keep = true
+				}
+			}
+			if !keep {
+				continue
+			}
+		}
 		body.WriteString(l)
 		body.WriteByte('\n')
 	}
